@@ -191,6 +191,75 @@ func execLine(line string) string {
 			return kind
 		}
 		return fmt.Sprintf("%s %d %s", kind, left, hx.Hex(ret))
+	case "idcall":
+		// memory := call data; STATICCALL 0x04 with the given windows; answer: memory right after
+		// the call and the return data (observed through RETURNDATACOPY/RETURNDATASIZE)
+		if len(w) != 6 {
+			return "bad-op"
+		}
+		mem, e0 := hx.UnHex(w[1])
+		var v [4]uint64
+		ok := e0 == nil
+		for i := 0; i < 4; i++ {
+			x, err := strconv.ParseUint(w[2+i], 10, 32)
+			v[i] = x
+			ok = ok && err == nil
+		}
+		if !ok {
+			return "bad-op"
+		}
+		p := &prog{}
+		p.op(CALLDATASIZE)
+		p.pushU(0)
+		p.pushU(0)
+		p.op(CALLDATACOPY)
+		p.pushU(v[3])
+		p.pushU(v[2])
+		p.pushU(v[1])
+		p.pushU(v[0])
+		p.pushU(4)
+		p.op(0x63, 0x0f, 0xff, 0xff, 0xff, 0xfa, POP)
+		p.op(MSIZE, RETURNDATASIZE)
+		p.pushU(0)
+		p.op(0x82, RETURNDATACOPY)
+		p.op(RETURNDATASIZE, 0x81, RETURNDATASIZE, ADD, MSTORE)
+		p.op(RETURNDATASIZE, ADD)
+		p.pushU(32)
+		p.op(ADD)
+		p.pushU(0)
+		p.op(RETURN)
+		kind, _, ret := runImpl(0, 100000000, p.b, mem)
+		if kind != "ok" || len(ret) < 32 {
+			return kind
+		}
+		rds := int(new(big.Int).SetBytes(ret[len(ret)-32:]).Int64())
+		if rds > len(ret)-32 {
+			return "bad-observation"
+		}
+		return fmt.Sprintf("ok %s %s", hx.Hex(ret[:len(ret)-32-rds]), hx.Hex(ret[len(ret)-32-rds:len(ret)-32]))
+	case "memsize":
+		if len(w) < 3 {
+			return "bad-op"
+		}
+		cfg, e1 := strconv.Atoi(w[1])
+		op, e2 := strconv.Atoi(w[2])
+		if e1 != nil || e2 != nil || cfg < 0 || cfg > 7 || op < 0 || op > 255 {
+			return "bad-op"
+		}
+		var st []uint256.Int
+		for _, h := range w[3:] {
+			b, err := hx.UnHex(h)
+			if err != nil || len(b) > 32 {
+				return "bad-op"
+			}
+			st = append(st, *new(uint256.Int).SetBytes(b))
+		}
+		setCfg(cfg)
+		size, overflow, defined := vm.VerifC11MemSize(1, byte(op), st)
+		if !defined {
+			return "undefined"
+		}
+		return fmt.Sprintf("%d %v", size, overflow)
 	case "bitmap":
 		if len(w) != 2 {
 			return "bad-op"
@@ -309,6 +378,7 @@ func main() {
 			c = c[:30]
 		}
 		dist["result:"+c]++
+		dist["bystream:"+stream+"|"+c]++
 	}
 	for _, l := range corpusLines() {
 		emit("corpus", l)
@@ -335,7 +405,7 @@ func main() {
 	sb.WriteString("{\"ops\":" + strconv.Itoa(out.N) + ",\"streams\":{")
 	first := true
 	for _, k := range keys {
-		if strings.HasPrefix(k, "result:") {
+		if strings.HasPrefix(k, "result:") || strings.HasPrefix(k, "bystream:") {
 			continue
 		}
 		if !first {
@@ -355,6 +425,18 @@ func main() {
 		}
 		first = false
 		sb.WriteString(strconv.Quote(k[7:]) + ":" + strconv.Itoa(dist[k]))
+	}
+	sb.WriteString("},\"by_stream\":{")
+	first = true
+	for _, k := range keys {
+		if !strings.HasPrefix(k, "bystream:") {
+			continue
+		}
+		if !first {
+			sb.WriteByte(',')
+		}
+		first = false
+		sb.WriteString(strconv.Quote(k[9:]) + ":" + strconv.Itoa(dist[k]))
 	}
 	sb.WriteString("},\"opcodes\":" + g.opcodeHistogram())
 	sb.WriteString(",\"aliasing\":" + jsonList(aliasing) + ",\"rejected\":" + jsonList(rejected) + "}")
